@@ -435,7 +435,11 @@ impl Ctx {
     /// evaluated here, so keep it cheap or call this per chunk.
     pub fn watch(&self, worker: usize, desc: impl FnOnce() -> String) {
         let slot = &self.slots[worker.min(self.slots.len() - 1)];
-        *slot.desc.lock().unwrap() = desc();
+        let d = desc();
+        // under `supervise` the same descriptor tells the parent what was running if the code
+        // under test kills the process
+        mark_case(worker, || format!("{{\"property\":\"{}\",\"watch\":{}}}", self.id, serde_json::Value::String(d.clone())));
+        *slot.desc.lock().unwrap() = d;
         slot.start_ms
             .store(self.start.elapsed().as_millis() as u64 + 1, Ordering::SeqCst);
     }
